@@ -373,6 +373,11 @@ func genSize(t *rapid.T) int {
 		return rapid.IntRange(1, 60).Draw(t, "size-small")
 	case k < 60:
 		return rapid.IntRange(32*1024-8, 32*1024+1).Draw(t, "size-32k")
+	case k < 64:
+		// around every power of two from 64 B to 128 KiB (buffer sizes of readers, writers and compressors), a few
+		// bytes below it too: the serialized message is some bytes longer than its body
+		p := 1 << rapid.IntRange(6, 17).Draw(t, "size-pow2-exp")
+		return rapid.IntRange(p-8, p+1).Draw(t, "size-near-pow2")
 	case k < 70:
 		return rapid.SampledFrom([]int{65535, 65536, 65537, 1<<17 - 1, 1 << 17, 1<<17 + 1, 1<<18 + 1, 1<<20 - 1}).Draw(t, "size-pow2")
 	case k < 72:
